@@ -304,6 +304,80 @@ func genZoo(r *Rng, i int) Case {
 	return &zooCase{S: s}
 }
 
+// zooFaultCase (C02): an All run over packages of two modules in which the generator fails (or renders something that
+// does not parse) for zoo/p — the package of the other module, which comes last in import-path order.  A failed run
+// marks no work as done: no gengo.sum of any module may be created or rewritten.
+type zooFaultCase struct {
+	S   PScn `json:"scenario"`
+	out *POut
+}
+
+func (c *zooFaultCase) ensure() {
+	if c.out == nil {
+		c.out = runScenarios([]*PScn{&c.S}, 1)[0]
+	}
+}
+func (c *zooFaultCase) Line() string { return "" }
+func (c *zooFaultCase) Run() string {
+	c.ensure()
+	var sums []string
+	for rel := range c.out.After {
+		if filepath.Base(rel) == "gengo.sum" {
+			sums = append(sums, rel)
+		}
+	}
+	sort.Strings(sums)
+	return "result=" + strings.SplitN(c.out.Result, ":", 2)[0] + " sums=" + strings.Join(sums, ",")
+}
+func (c *zooFaultCase) Oracle(out string) string {
+	c.ensure()
+	o := c.out
+	if o.Result == "ok" {
+		return "the generator failed for zoo/p and Execute returned no error"
+	}
+	if o.Result == "loaderr" || strings.HasPrefix(o.Result, "harness") {
+		return ""
+	}
+	for rel, h := range o.After {
+		if filepath.Base(rel) == "gengo.sum" && o.Before[rel] != h {
+			return fmt.Sprintf("the run failed (%s) and %s was written", o.Result, rel)
+		}
+	}
+	return ""
+}
+func (c *zooFaultCase) Shrinks() []Case {
+	var out []Case
+	if len(c.S.Pkgs) > 1 {
+		n := cloneScn(c.S)
+		n.Pkgs, n.Entry = n.Pkgs[:1], []int{0}
+		out = append(out, &zooFaultCase{S: n})
+	}
+	return out
+}
+func (c *zooFaultCase) Key() string {
+	return fmt.Sprintf("%d main packages, zoo/p reacts %s, prev %s", len(c.S.Pkgs), c.S.Reacts["rec@zoo/p@P"], c.S.Prev)
+}
+func (c *zooFaultCase) Classes() []string {
+	return []string{"fault:" + c.S.Reacts["rec@zoo/p@P"], "prev:" + c.S.Prev, fmt.Sprintf("main-packages:%d", len(c.S.Pkgs))}
+}
+func (c *zooFaultCase) Nontrivial() bool { return true }
+func (c *zooFaultCase) InDomain() bool   { return true }
+
+func genZooFault(r *Rng, i int) Case {
+	s := PScn{Reacts: map[string]string{}, Custom: map[string][]PItem{}, Prev: "none", All: true, Zoo: 1, Gens: []PGen{{Name: "rec", CustomNew: r.Bool()}}}
+	for k := 1 + r.Intn(3); k > 0; k-- {
+		p := PPkg{Dir: fmt.Sprintf("a%d", k), PkgTags: []PTag{{"gengo:rec", []string{""}}}, Types: []PType{{Name: "A", Kind: "n"}}}
+		s.Reacts["rec@"+pipeMod+"/"+p.Dir+"@A"] = "ov-"
+		s.Entry = append(s.Entry, len(s.Pkgs))
+		s.Pkgs = append(s.Pkgs, p)
+	}
+	s.Reacts["rec@zoo/p@P"] = Pick(r, []string{"fv-", "fn-", "ox-", "ove"}) // error / error / unparseable rendering / failing deferred callback
+	if r.Bool() {
+		s.Prev = strings.Repeat("c", len(s.Pkgs)) // a sum file of an earlier run is there
+	}
+	return &zooFaultCase{S: s}
+}
+
 type aloneCase struct {
 	pipeCase
 	alone map[int]*POut
@@ -1082,6 +1156,12 @@ func genHistory(r *Rng) *histCase {
 
 func init() {
 	register(&Property{ID: "C02", Streams: []*Stream{
+		{
+			Name: "two-modules", Quick: 24, Thorough: 200, New: func() Case { return &zooFaultCase{} },
+			Gen:          genZooFault,
+			ShrinkBudget: 6, MaxShrinks: 2,
+			Rule: "All runs whose entrypoints cover two modules — 1–3 packages of the main module and zoo/p of a module reached through a replace directive, which comes last — with the generator failing for zoo/p (an error, an unparseable rendering or a failing deferred callback), with and without a sum file of an earlier run; oracle only: Execute returns the error and no gengo.sum of any module is created or rewritten",
+		},
 		{
 			Name: "faults", New: func() Case { return &faultCase{} },
 			Quick: 30, Thorough: 300,
